@@ -42,6 +42,7 @@ type rec struct {
 
 var stamp int64
 var onlyMode string
+var schedCap int
 
 func classify(err error) string {
 	switch {
@@ -88,9 +89,10 @@ func main() {
 		worker = flag.Bool("worker", false, "internal")
 		from   = flag.Int("from", 0, "internal: first program index")
 		mode   = flag.String("mode", "", "sched: only programs for validation against the scheduling model (spec/SchedTrace.tla)")
+		capf   = flag.Int("cap", 0, "sched mode: capacity of Events")
 	)
 	flag.Parse()
-	onlyMode = *mode
+	onlyMode, schedCap = *mode, *capf
 	if *worker {
 		os.Exit(runWorker(*out, *n, *seed, *from))
 	}
@@ -106,7 +108,7 @@ func supervise(out string, n int, seed int64) int {
 	for from < n && bad < 12 {
 		part := out + ".part"
 		os.Remove(part)
-		cmd := exec.Command(self, "-worker", "-out", part, "-n", fmt.Sprint(n), "-seed", fmt.Sprint(seed), "-from", fmt.Sprint(from), "-mode", onlyMode)
+		cmd := exec.Command(self, "-worker", "-out", part, "-n", fmt.Sprint(n), "-seed", fmt.Sprint(seed), "-from", fmt.Sprint(from), "-mode", onlyMode, "-cap", fmt.Sprint(schedCap))
 		var stderr strings.Builder
 		cmd.Stderr = &stderr
 		cmd.Env = append(os.Environ(), "GORACE=halt_on_error=1 exitcode=66")
@@ -214,7 +216,7 @@ func runWorker(out string, n int, seed int64, from int) int {
 			Procs: []int{1, 2, 4, 16}[rnd.Intn(4)]}
 		var dirty bool
 		if onlyMode == "sched" {
-			p.Mode, p.Cap, p.Pace, p.Threads = "sched", 0, []string{"fast", "slow", "stall", "late"}[rnd.Intn(4)], 2
+			p.Mode, p.Cap, p.Pace, p.Threads = "sched", schedCap, []string{"fast", "slow", "stall", "late"}[rnd.Intn(4)], 2
 			p.Procs = []int{1, 2, 4, 16}[rnd.Intn(4)]
 			dirty = runSched(p, i, rnd, emit)
 		} else if rnd.Intn(5) == 0 {
@@ -707,7 +709,12 @@ func runSched(p program, idx int, rnd *rand.Rand, emit func(interface{})) (dirty
 	var w *fsnotify.Watcher
 	var err error
 	for try := 0; try < 100; try++ {
-		if w, err = fsnotify.NewWatcher(); err == nil {
+		if p.Cap == 0 {
+			w, err = fsnotify.NewWatcher()
+		} else {
+			w, err = fsnotify.NewBufferedWatcher(uint(p.Cap))
+		}
+		if err == nil {
 			break
 		}
 		time.Sleep(100 * time.Millisecond)
